@@ -108,6 +108,32 @@ pub fn gen(c: &Chain, cfg: &Cfg, m: &Menu, rng: &mut Rng, kind: &str) -> Option<
         }
         "allow_b" | "allow_st" => {
             let t = if kind == "allow_b" { "bsei" } else { "stsei" };
+            // half of the time an (owner, spender) pair that already has an allowance - a lapsed one if there is one
+            let (mut u, mut v) = (u.clone(), v.clone());
+            if rng.chance(1, 2) {
+                let (mut lapsed, mut live) = (vec![], vec![]);
+                for o in &cfg.users {
+                    for sp in &cfg.users {
+                        if o != sp {
+                            let al: cw20::AllowanceResponse = c.q(t, &cw20::Cw20QueryMsg::Allowance { owner: o.clone(), spender: sp.clone() });
+                            if !al.allowance.is_zero() {
+                                let gone = match al.expires {
+                                    cw20::Expiration::AtHeight(h) => c.height >= h,
+                                    cw20::Expiration::AtTime(ts) => c.time >= ts.seconds(),
+                                    cw20::Expiration::Never {} => false,
+                                };
+                                if gone { lapsed.push((o.clone(), sp.clone())) } else { live.push((o.clone(), sp.clone())) }
+                            }
+                        }
+                    }
+                }
+                let pool = if !lapsed.is_empty() && rng.chance(2, 3) { lapsed } else { live };
+                if !pool.is_empty() {
+                    let p = rng.pick(&pool).clone();
+                    u = p.0;
+                    v = p.1;
+                }
+            }
             if u == v {
                 return None;
             }
@@ -184,13 +210,19 @@ pub fn gen(c: &Chain, cfg: &Cfg, m: &Menu, rng: &mut Rng, kind: &str) -> Option<
             exec("owner", "hub", p, json!([]))
         }
         "params" => {
+            // one field, and one time in three any further field as well (combinations such as pausing together with a new fee)
             let mut p = none_params.clone();
-            match rng.below(5) {
-                0 => p["epoch"] = json!(1 + rng.below(6)),
-                1 => p["fee"] = json!(*rng.pick(&DECS)),
-                2 => p["thr"] = json!(*rng.pick(&DECS)),
-                3 => p["rdenom"] = json!(*rng.pick(&["kusd", "usei"])),
-                _ => p["paused"] = json!(*rng.pick(&["t", "f"])),
+            let first = rng.below(5);
+            for f in 0..5 {
+                if f == first || rng.chance(1, 3) {
+                    match f {
+                        0 => p["epoch"] = json!(1 + rng.below(6)),
+                        1 => p["fee"] = json!(*rng.pick(&DECS)),
+                        2 => p["thr"] = json!(*rng.pick(&DECS)),
+                        3 => p["rdenom"] = json!(*rng.pick(&["kusd", "usei"])),
+                        _ => p["paused"] = json!(*rng.pick(&["t", "f"])),
+                    }
+                }
             }
             exec(if rng.chance(7, 8) { "owner" } else { *rng.pick(&SENDERS) }, "hub", p, json!([]))
         }
@@ -255,6 +287,23 @@ pub fn gen(c: &Chain, cfg: &Cfg, m: &Menu, rng: &mut Rng, kind: &str) -> Option<
                        "fee": *rng.pick(&DECS), "thr": *rng.pick(&DECS)})
             } else {
                 json!({"k": "instantiate", "c": "dispatcher", "sender": *rng.pick(&["owner", "owner2"]), "rate": *rng.pick(&DECS), "stdenom": *rng.pick(&["usei", "usei", ""])})
+            }
+        }
+        // two-step ownership hand-over of one of the four ownable contracts, following the current state: the owner nominates
+        // the other identity, or the pending nominee accepts (and now and then the outgoing owner tries to accept instead)
+        "handover" => {
+            let st = project(c, cfg);
+            let (contract, key) = *rng.pick(&[("hub", "hubCfg"), ("dispatcher", "disp"), ("reward", "rew"), ("registry", "reg")]);
+            let owner = st[key]["owner"].as_str().unwrap_or("owner").to_string();
+            let nominee = st[key]["nominee"].as_str().unwrap_or("owner").to_string();
+            if nominee != owner && nominee != "" {
+                let who = if rng.chance(5, 6) { nominee } else { owner };
+                exec(&who, contract, json!({"k": "accept_ownership"}), json!([]))
+            } else if rng.chance(1, 4) {
+                exec(*rng.pick(&["owner", "owner2"]), contract, json!({"k": "accept_ownership"}), json!([]))
+            } else {
+                let other = if owner == "owner" { "owner2" } else { "owner" };
+                exec(&owner, contract, json!({"k": "set_owner", "new_owner_addr": other}), json!([]))
             }
         }
         "auth" => return Some(crate::auth::random_call(c, cfg, rng)),
